@@ -31,7 +31,7 @@ def event_world(seed, twins=True):
     rng = w.rng
     for ci in range(2):
         chrom = "chr%d" % (ci + 1)
-        w.add_chrom(chrom, 100000)
+        w.add_chrom(chrom, 170000)
         pos = 2000
         for gi in range(5):
             strand = rng.choice("+-")
@@ -148,6 +148,34 @@ def event_world(seed, twins=True):
                 w.make_read(chrom, [e0, e1, e2, e3, rm], truth={"src": gid + ".t1", "class": "misplaced-terminal-exon-right"})
                 w.make_read(chrom, [lm, e1, e2, e3, rm], truth={"src": gid + ".t1", "class": "misplaced-terminal-exon-both"})
             pos = pos + 8100 + rng.randint(2500, 3500)
+    # reads that are AMBIGUOUS between two isoforms which number the affected intron differently (the second isoform starts inside the
+    # third exon of the first, two introns further downstream): a retained 30-bp micro-intron, a skipped 12-bp micro-exon
+    for ci, chrom in enumerate(w.chrom_order):
+        p0 = max([g.end for g in w.genes if g.chrom == chrom] + [1000]) + 2500
+        for k, variant in enumerate(("micro-intron", "micro-exon", "micro-intron", "micro-exon")):
+            if p0 + 5000 > w.chrom_len(chrom) - 8000:
+                break
+            strand = "+-"[(k // 2) % 2]
+            e = [(p0, p0 + 200), (p0 + 700, p0 + 900), (p0 + 1500, p0 + 1900), (p0 + 2500, p0 + 2650)]
+            if variant == "micro-intron":
+                e += [(p0 + 2681, p0 + 2900), (p0 + 3500, p0 + 3750)]
+            else:
+                e += [(p0 + 3300, p0 + 3311), (p0 + 3900, p0 + 4150), (p0 + 4700, p0 + 4950)]
+            gid = "AMB%d_%d" % (ci + 1, k + 1)
+            g = Gene(gid, chrom, strand)
+            g.transcripts.append(Transcript(gid + ".tA", gid, chrom, strand, list(e), True, "events-ambiguous"))
+            g.transcripts.append(Transcript(gid + ".tB", gid, chrom, strand, [(p0 + 1700, p0 + 1900)] + e[3:], True, "events-ambiguous"))
+            for intr in g.transcripts[0].introns:
+                w.plant_sites(chrom, intr, strand)
+            w.genes.append(g)
+            for q in range(3):
+                w.make_read(chrom, list(e), truth={"src": gid + ".tA", "class": "exact"})
+                head = (p0 + 1750 + 5 * q, p0 + 1900)
+                if variant == "micro-intron":
+                    w.make_read(chrom, [head, (e[3][0], e[4][1]), (e[5][0], e[5][1] - 4 * q)], truth={"src": gid + ".tA", "class": "ambiguous-micro-intron-retained"})
+                else:
+                    w.make_read(chrom, [head, e[3], e[5], (e[6][0], e[6][1] - 4 * q)], truth={"src": gid + ".tA", "class": "ambiguous-skipped-micro-exon"})
+            p0 = e[-1][1] + rng.randint(2500, 3500)
     # three-exon genes with a 24-44 bp middle exon; reads that skip it and whose one outer site lies 3-5 bp inside the neighbouring exon
     # (the short-read based rule "one long intron = two short-read introns around a micro-exon" needs one of the outer sites to differ);
     # eight loci per sequence, because the rule walks a SET of short-read introns in hash order
